@@ -262,11 +262,12 @@ pub proof fn lemma_C03_defaulted_parameter_is_not_a_request(v: FnV, d: Expr, k: 
     ensures ({
         let ps = all_params(v.args);
         let n = ps.len() as int;
+        let deps = fixture_def(v, d, f, src, li).dependencies;
         &&& deps_of(ps, k + 1) == deps_of(ps, k)
         &&& param_uses(ps, k + 1, true, f, li) == param_uses(ps, k, true, f, li)
         &&& param_uses(ps, k + 1, false, f, li) == param_uses(ps, k, false, f, li)
-        &&& forall|i: int| 0 <= i < fixture_def(v, d, f, src, li).dependencies.len() ==>
-                exists|j: int| 0 <= j < n && !has_default(#[trigger] ps[j]) && fixture_def(v, d, f, src, li).dependencies[i] == pname(ps[j])
+        &&& forall|i: int| 0 <= i < deps.len() ==>
+                exists|j: int| 0 <= j < n && !has_default(#[trigger] ps[j]) && (#[trigger] deps[i]) == pname(ps[j])
         &&& forall|fixture: bool, i: int| 0 <= i < param_uses(ps, n, fixture, f, li).len() ==>
                 exists|j: int| 0 <= j < n && !has_default(#[trigger] ps[j]) && (#[trigger] param_uses(ps, n, fixture, f, li)[i]) == param_use(ps[j], f, li)
         &&& declared_fixture(v.name, v.args).contains(pname(ps[k]))
@@ -277,7 +278,7 @@ pub proof fn lemma_C03_defaulted_parameter_is_not_a_request(v: FnV, d: Expr, k: 
     let n = ps.len() as int;
     let deps = fixture_def(v, d, f, src, li).dependencies;
     assert forall|i: int| 0 <= i < deps.len() implies
-        exists|j: int| 0 <= j < n && !has_default(#[trigger] ps[j]) && deps[i] == pname(ps[j]) by {
+        exists|j: int| 0 <= j < n && !has_default(#[trigger] ps[j]) && (#[trigger] deps[i]) == pname(ps[j]) by {
         lemma_deps_from_requests(ps, n, i);
         let j = choose|j: int| 0 <= j < n && j < ps.len() && is_dep(#[trigger] ps[j]) && deps_of(ps, n)[i] == pname(ps[j]);
         assert(!has_default(ps[j]) && deps[i] == pname(ps[j]));
